@@ -1,5 +1,7 @@
 package pkcs7
 
+import "bytes"
+
 // C13/C16: the hand-written BER reader on arbitrary bytes.
 
 // ber2der on every byte string of length n: no panic, terminates.
@@ -76,6 +78,36 @@ func verifH_c16_ber_id() {
 		verifAssert(err == nil, "DER input is accepted")
 		verifAssert(verifEqBytes(out, keep), "DER input is returned unchanged")
 		verifReach("der")
+	}
+	verifReach("end")
+}
+
+// C16: the DER length re-encoder is minimal and exact for every length below 2^31.
+func verifH_c16_length() {
+	i := verifInt("len", 0, 1<<31-1)
+	out := new(bytes.Buffer)
+	err := encodeLength(out, i)
+	verifAssert(err == nil, "no error")
+	b := out.Bytes()
+	if i < 128 {
+		verifAssert(len(b) == 1 && b[0] == byte(i), "short form below 128")
+	} else {
+		k := 1
+		if i > 0xff {
+			k = 2
+		}
+		if i > 0xffff {
+			k = 3
+		}
+		if i > 0xffffff {
+			k = 4
+		}
+		verifAssert(len(b) == 1+k && b[0] == 0x80|byte(k), "long form with the minimal number of length bytes")
+		if len(b) == 1+k {
+			for j := 0; j < k; j++ {
+				verifAssert(b[1+j] == byte(i>>(8*uint(k-1-j))), "big-endian length bytes")
+			}
+		}
 	}
 	verifReach("end")
 }
